@@ -55,9 +55,11 @@ Section Models.
   (** NonNegativeIndicator.prox: maximum(v, 0) *)
   Definition nonneg_code (v : K) : K := kmax v k0.
 
-  (** L2BallIndicator.prox: radius * v / norm(v); [ball_spec] is the proved projection *)
-  Definition ball_code (r nv v : K) : K := r * v / nv.
-  Definition ball_spec (r nv v : K) : K := if nv <=? r then v else r * v / nv.
+  (** L2BallIndicator.prox: nrm = norm(v);
+      where(nrm <= radius, 1.0, radius / where(nrm > 0, nrm, 1.0)) * v *)
+  Definition ball_fac_code (r nv : K) : K :=
+    if nv <=? r then k1 else r / (if k0 <? nv then nv else k1).
+  Definition ball_code (r nv v : K) : K := ball_fac_code r nv * v.
 
   (** SetDistance.prox: theta = lam/d if d >= lam else 1.0; theta*y + (1-theta)*v *)
   Definition sd_theta (lam d : K) : K := if lam <=? d then lam / d else k1.
@@ -254,13 +256,14 @@ Qed.
 Lemma nonneg_transfer v : inj (nonneg_code v) = nonneg_code (inj v).
 Proof. unfold nonneg_code. rewrite inj_kmax. cbn [k0 Num_Qc Num_R]. now rewrite inj_0. Qed.
 
-Lemma ball_transfer r nv v : nv <> 0%Qc -> inj (ball_code r nv v) = ball_code (inj r) (inj nv) (inj v).
-Proof. intros Hn. unfold ball_code. cbn [kmul kdiv Num_Qc Num_R]. now rewrite inj_div, inj_mul. Qed.
-Lemma ball_spec_transfer r nv v : nv <> 0%Qc ->
-  inj (ball_spec r nv v) = ball_spec (inj r) (inj nv) (inj v).
+Lemma ball_transfer r nv v : inj (ball_code r nv v) = ball_code (inj r) (inj nv) (inj v).
 Proof.
-  intros Hn. unfold ball_spec. cbn [kmul kdiv kleb Num_Qc Num_R].
-  now rewrite inj_if, inj_leb, inj_div, inj_mul.
+  unfold ball_code, ball_fac_code, kltb. cbn [kmul kdiv kleb k0 k1 Num_Qc Num_R].
+  rewrite inj_mul. f_equal. rewrite inj_if, inj_1, inj_leb. rewrite R_leb_inj_0.
+  destruct (R_leb (inj nv) (inj r)); auto.
+  destruct (Qc_leb nv 0%Qc) eqn:E; cbn [negb].
+  - rewrite inj_div, inj_1; auto. intro H. apply (f_equal inj) in H. rewrite inj_1, inj_0 in H. lra.
+  - apply inj_div. now apply Qc_leb_0_false_neq.
 Qed.
 
 Lemma sd_theta_transfer lam d : (0 < lam)%Qc -> inj (sd_theta lam d) = sd_theta (inj lam) (inj d).
